@@ -57,8 +57,9 @@ func (t *Transformer) transformStruct(ws *WireStruct, pkg *types.Package) *Kesso
 	funcLit := t.buildStructConstructor(structType, fieldInfos, ws.IsPointer)
 
 	return &KessokuProvide{
-		FuncExpr:  funcLit,
-		SourcePos: ws.Pos,
+		FuncExpr:    funcLit,
+		SourcePos:   ws.Pos,
+		Synthesized: t.tc != nil,
 	}
 }
 
@@ -113,8 +114,9 @@ func (t *Transformer) transformFieldsOf(wf *WireFieldsOf, pkg *types.Package) *K
 	funcLit := t.buildFieldAccessor(structType, fieldInfos)
 
 	return &KessokuProvide{
-		FuncExpr:  funcLit,
-		SourcePos: wf.Pos,
+		FuncExpr:    funcLit,
+		SourcePos:   wf.Pos,
+		Synthesized: t.tc != nil,
 	}
 }
 
